@@ -221,6 +221,25 @@ def evaluate(ctx, case):
         t_pts = [[float(c) for c in p] for p in tgt["residue"]]
         target = _residue(t_pts, resid=2)
         c_tgt = np.mean(np.array(t_pts), axis=0)
+    if int(abs(self_pts[0][0]) * 1e4 + abs(c_tgt[1]) * 1e2 + len(self_pts)) % 2 == 0:
+        # history: the residues stood somewhere else, were asked for their centre and a distance there, and were then put
+        # where the case wants them THROUGH THEIR ATOMS (the handles a Molecule or a view writes through) — the distance
+        # is a function of where the atoms are now (seed C19-11: a centre memoised on the Residue, dropped only by the
+        # Residue's own setter)
+        ctx.count("history:queried-elsewhere-then-moved-through-the-atoms")
+        shift = np.array([1.75, -0.5, 2.25])
+        res_self = _residue([list(np.array(p) + shift) for p in self_pts])
+        movers = [(res_self, self_pts)]
+        if t_pts is not None:
+            target = _residue([list(np.array(p) - shift) for p in t_pts], resid=2)
+            movers.append((target, t_pts))
+        _call(lambda: res_self.geometric_center)
+        _call(lambda: res_self.distance_to(target))
+        if t_pts is not None:
+            _call(lambda: target.distance_to(res_self))
+        for r, pts in movers:
+            for a, pnt in zip(r, pts):
+                a.position = np.array(pnt, dtype=float)
     v = c_tgt - c_self
     Bro = None
     if B is not None:
